@@ -1,5 +1,6 @@
 """C17 — `in $list` delegates exactly to the context's list matcher."""
 from lib import *
+import sem
 import common
 
 LEVEL = "other"
@@ -204,26 +205,41 @@ def rule_order(E, R):
     h = E.hir(fn)
     if not h:
         return R.cannot(rule, fn, "anchor not found")
-    lits = [s for s in exprs(h["body"], "Struct") if norm(s["res"].get("path", "")).endswith("ComparisonOpExpr::InList")]
+    S = sem.Sem(E, h)
+    lits = [x for x in S.sites() if x.node.get("k") == "Struct" and norm(x.node["res"].get("path", "")).endswith("ComparisonOpExpr::InList")]
     R.floor(rule, "InList constructions in the parser", len(lits), 1)
-    gl = list(calls(h["body"], r"scheme::Scheme::get_list$"))
-    ok_gl = len(gl) == 1 and local_name(strip(gl[0]["args"][0])) == "lhs_type"
+    gl = [x for x in S.sites() if x.node.get("k") in ("Call", "MethodCall") and norm(x.node.get("callee", "")) == "scheme::Scheme::get_list"]
+    ok_gl = len(gl) == 1
+    if ok_gl:
+        recv = sem.is_method(S.resolve(call_args(gl[0].node)[-1], gl[0].frame).node, "get_type")
+        ok_gl = recv is not None and sem.provenance(S, recv, gl[0].frame)[0] is not None and \
+            sem.provenance(S, recv, gl[0].frame)[0].kind == "param"
     R.check(ok_gl, rule, fn, "list looked up by the left-hand side type", where=h["span"])
-    if gl:
-        # its None must become an error: .ok_or(..)? chain
-        par = [c for c in exprs(h["body"], "MethodCall") if c["m"] in ("ok_or", "ok_or_else") and strip(c["recv"]) is gl[0]]
-        R.check(len(par) == 1, rule, fn, "no list registered for the type -> parse error", where=gl[0]["sp"])
-    for s in lits:
-        fl = {f["name"]: f["e"] for f in s["fields"]}
-        good = local_name(chain(fl.get("list", {}))[0]) == "list" and local_name(fl.get("name", {})) == "name"
-        R.check(good, rule, fn, "InList node holds the looked-up list and the lexed name", where=s["sp"])
+    for x in lits:
+        fl = {f["name"]: f["e"] for f in x.node["fields"]}
+        found = False
+        for a_, pol in sem.literals(x.pc)[0]:
+            if a_.kind == "ok" and pol and gl:
+                root, ch = chain(a_.node)
+                if ch and ch[0] is gl[0].node and [c["m"] for c in ch[1:]] in (["ok_or"], ["ok_or_else"]):
+                    found = True
+            if a_.kind == "is" and pol and gl and len(a_.scruts) == 1 and {sem.variant_head(y[0]) for y in a_.alts} == {"Option::Some"} and \
+                    S.resolve(a_.scruts[0].node, a_.scruts[0].frame).node is gl[0].node:
+                found = True
+        R.check(found, rule, fn, "no list registered for the type -> parse error", where=x.node["sp"])
+        lexes = [y.node for y in S.sites() if y.node.get("k") == "Call" and norm(y.node.get("callee", "")).endswith("Lex::lex") and
+                 "ListName" in norm(y.node.get("ty", ""))]
+        good = bool(gl) and "list" in fl and "name" in fl and sem.passes_through(S, fl["list"], x.frame, gl[0].node) and \
+            any(sem.passes_through(S, fl["name"], x.frame, l_) for l_ in lexes)
+        R.check(good, rule, fn, "InList node holds the looked-up list and the lexed name", where=x.node["sp"])
     # every other InList construction site
+    covered = {fn} | {p_ for p_, _ in S.inlined}
     for hb in E.hir_list:
-        if "body" not in hb or norm(hb["path"]) == fn:
+        if "body" not in hb or norm(hb["path"]) in covered:
             continue
-        for s in exprs(hb["body"], "Struct"):
-            if norm(s["res"].get("path", "")).endswith("ComparisonOpExpr::InList") and not s.get("x"):
-                R.violation(rule, norm(hb["path"]), "InList constructed outside the parser", where=s["sp"])
+        for s_ in exprs(hb["body"], "Struct"):
+            if norm(s_["res"].get("path", "")).endswith("ComparisonOpExpr::InList") and not s_.get("x"):
+                R.violation(rule, norm(hb["path"]), "InList constructed outside the parser", where=s_["sp"])
 
 
 def run(F, R, tier):
